@@ -165,6 +165,9 @@ def gate_oracle(c, toks):
         return ("vec-construct-in-unallocated-memory", "%s: %d element(s) constructed outside any live allocation" % (gate_describe(c), val("WILD")))
     if val("DOUBLE"):
         return ("vec-element-constructed-twice", "%s: an element address was constructed twice" % gate_describe(c))
+    if val("G2ALUNALLOC"):
+        return ("vec-g2al-returns-before-allocation", "%s: grow_to_at_least(n) returned while a segment below n (owned by a growth call of another thread that is still in flight) "
+                "is not allocated: capacity() < n, size() < n and v[i] for such i < n dereferences a null segment" % gate_describe(c))
     if val("ACCBAD"):
         return ("vec-access-unallocated", "%s: at(i) returned an address outside live memory" % gate_describe(c))
     if toks and toks[-1] == "HANG":
@@ -195,6 +198,19 @@ def gen_gate(ctx, n):
         while len(sched) < rng.randint(20, 160):
             sched += [rng.randrange(T)] * rng.randint(1, 9)
         cases.append(c + sched)
+    # directed: the owner of a segment's first index is late.  T0 fills [0,B) (B a segment boundary beyond the embedded table), T1's push_back takes index B
+    # (it has to allocate the segment starting there) and stops after its fetch_add, T2 takes the rest of that segment and stops, T3's grow_to_at_least(n)
+    # lies wholly in later segments: it must still not return before T1's segment exists.
+    for B, n_ in ((16, 40), (16, 33), (32, 70), (8, 20), (64, 130), (16, 48)):
+        for k1 in (1, 2):
+            cases.append([-1, 4, 1, 0, B, 1, 1, 0, 1, 0, B - 1, 1, 2, n_, -1] + [0] * (40 * B + 200) + [1] * k1 + [2] * 1 + [3] * (30 * n_ + 400))
+    for _ in range(n // 6):
+        B = rng.choice([8, 16, 32])
+        c = [-1, 4, 1, 0, B, 1, 1, 0, 1, rng.choice([0, 1]), rng.choice([B - 1, 3, 1]), 1, 2, rng.choice([B + B // 2, 2 * B + 1, 2 * B + 8, 3 * B]), -1] + [0] * (40 * B + 200)
+        sched = []
+        while len(sched) < rng.randint(10, 400):
+            sched += [rng.choice([1, 2, 3, 3])] * rng.randint(1, 12)
+        cases.append(c + sched)
     return cases
 
 
@@ -205,7 +221,8 @@ def run_gate(ctx):
         return ctx.broken("drv_vecgate build (concurrent_vector under the atomic prelude)", err)
     ctx.rules.append("vec-gate: 2-3 logical threads growing one concurrent_vector under seeded bursty interleavings of its atomic accesses, element allocator throwing at "
                      "allocation #k (k in -1..4); oracle = no construction outside live memory, no element constructed twice, at(i) works or throws, the destructor runs, "
-                     "no hang unless an allocation failed")
+                     "no hang unless an allocation failed, grow_to_at_least(n) does not return while a segment below n is unallocated; directed cases: the thread owning the first index of a "
+                     "segment is stopped right after taking its index while another thread's grow_to_at_least lands wholly in later segments")
     vlib.oracle_tie(ctx, "vec-gate", exe, [], gen_gate(ctx, ctx.scale(1200, 40000)), gate_oracle, describe=gate_describe,
                     bucket=lambda c: "vec-gate failk=%d" % c[0], timeout=1800)
 
